@@ -184,35 +184,35 @@ Print Assumptions bal_single_total_eq_sum_column.
 
 (** ** stretch: [reg -s x -g] (by food) *)
 
-(** law-free: the by-food reporter feeds the same values, but only for foods the book defines *)
+(** law-free: the by-food reporter feeds the same values as the register (since fix F26 also for a food the
+    book does not define: it stands for itself, so [x] logged directly is counted) *)
 Theorem byfood_values_are_filter :
   forall (NM : Num) (d : list (bytes * elements NM)) (x : bytes) (ln : lognode NM),
-    map snd (byfood_contributions NM d x ln) = map snd (named NM x (contributions NM d (defined_only NM d ln))).
+    map snd (byfood_contributions NM d x ln) = map snd (named NM x (contributions NM d ln)).
 Proof. exact AgreeTotals.byfood_values_are_filter. Qed.
 Print Assumptions byfood_values_are_filter.
 
-(** Σ over foods of the by-food rows = period total of [x] over the log restricted to the foods
-    the book defines (an element logged directly is ignored by this reporter) *)
+(** Σ over foods of the by-food rows = period total of [x] over the log (the whole log: since fix F26 no
+    hypothesis that [x] is never logged directly) *)
 Theorem byfood_total :
   forall (NM : Num), AddMonoid NM ->
   forall (c : rconfig) (πf πf' : list bytes -> list bytes) (πd πd' : nat -> list bytes -> list bytes)
          (d : list (bytes * elements NM)) (L : list (lognode NM)),
     (forall l : list bytes, Permutation (πf l) l) -> (forall l : list bytes, Permutation (πf' l) l) ->
     sum NM (map (row_sum NM) (byfood_rows NM c πf πd d L))
-    = match period_row NM πf' πd' d (rc_single_element c) (map (defined_only NM d) L) with
+    = match period_row NM πf' πd' d (rc_single_element c) L with
       | Some (p, n) => add NM p n
       | None => zero NM
       end.
 Proof. exact AgreeTotalsByFood.byfood_total. Qed.
 Print Assumptions byfood_total.
 
-(** ... which is the full period total when [x] is never logged directly *)
+(** the former variant "... when [x] is never logged directly": that hypothesis is gone (name kept) *)
 Theorem byfood_total_full :
   forall (NM : Num), AddMonoid NM ->
   forall (c : rconfig) (πf πf' : list bytes -> list bytes) (πd πd' : nat -> list bytes -> list bytes)
          (d : list (bytes * elements NM)) (L : list (lognode NM)),
     (forall l : list bytes, Permutation (πf l) l) -> (forall l : list bytes, Permutation (πf' l) l) ->
-    (forall ln nv, In ln L -> In nv (ln_elems NM ln) -> lookup (fst nv) d = None -> fst nv <> rc_single_element c) ->
     sum NM (map (row_sum NM) (byfood_rows NM c πf πd d L))
     = match period_row NM πf' πd' d (rc_single_element c) L with
       | Some (p, n) => add NM p n
